@@ -19,7 +19,7 @@ META = {
     },
 }
 
-TYPES = (('NA', 3), ('N__U_', 2), ('NB', 1), ('NN', 2), ('NJ', 2))
+TYPES = (('NA', 2), ('_ple', 1), ('N__U_', 2), ('NB', 1), ('NN', 2), ('NJ', 2))
 _AUDIT = {'armed': False, 'writes': [], 'installed': False}
 
 
